@@ -800,9 +800,101 @@ class _ZipCount(ast.NodeTransformer):
         return ast.copy_location(new, node)
 
 
+class _CounterLoops(ast.NodeTransformer):
+    """`for x in XS: BODY; c += K`   (c stepped by a constant at the very end of every iteration, bound nowhere else in the loop, no
+    break / continue)  ->  `for _ci, x in enumerate(XS): BODY[c := c + K * _ci]` -- the recurrence written as its closed form, which is
+    what `enumerate` spells directly.  When c is read after the loop, `c += K * len(XS)` follows it (XS a plain name / attribute chain)."""
+
+    def __init__(self, fn: ast.AST) -> None:
+        self.k = 0
+        self.fn = fn
+
+    def visit_For(self, node: ast.For):
+        self.generic_visit(node)
+        if node.orelse or not node.body:
+            return node
+        last = node.body[-1]
+        c = None
+        step = None
+        if isinstance(last, ast.AugAssign) and isinstance(last.op, (ast.Add, ast.Sub)) and isinstance(last.target, ast.Name) \
+                and isinstance(last.value, ast.Constant) and isinstance(last.value.value, int) and not isinstance(last.value.value, bool):
+            c, step = last.target.id, last.value.value if isinstance(last.op, ast.Add) else -last.value.value
+        if c is None or step == 0:
+            return node
+        body = node.body[:-1]
+        for st in body:
+            for n in ast.walk(st):
+                if isinstance(n, ast.Name) and n.id == c and isinstance(n.ctx, (ast.Store, ast.Del)):
+                    return node
+                if isinstance(n, (ast.Break, ast.Continue, ast.Return, ast.Yield, ast.YieldFrom)):
+                    return node
+        if any(isinstance(n, ast.Name) and n.id == c for n in ast.walk(node.target)) or any(isinstance(n, ast.Name) and n.id == c for n in ast.walk(node.iter)):
+            return node
+        if not any(isinstance(n, ast.Name) and n.id == c and isinstance(n.ctx, ast.Load) for st in body for n in ast.walk(st)):
+            return node
+        # is c read after the loop?  (anywhere later in source order within the function)
+        end = (getattr(node, "end_lineno", None) or node.lineno, getattr(node, "end_col_offset", 0))
+        read_later = any(isinstance(n, ast.Name) and n.id == c and isinstance(n.ctx, ast.Load) and (n.lineno, n.col_offset) > end
+                         for n in ast.walk(self.fn) if hasattr(n, "lineno"))
+        in_outer_loop = False
+        # the loop may itself sit in a loop: then "later" includes the next iteration of that loop
+        for n in ast.walk(self.fn):
+            if isinstance(n, (ast.For, ast.While)) and n is not node and any(x is node for x in ast.walk(n)):
+                in_outer_loop = True
+        it = node.iter
+        chain = it
+        while isinstance(chain, ast.Attribute):
+            chain = chain.value
+        simple_iter = isinstance(chain, ast.Name)
+        if (read_later or in_outer_loop) and not simple_iter:
+            return node
+        # index variable: reuse the one of a plain enumerate, else wrap the iterable
+        idx = None
+        new = copy.copy(node)
+        if isinstance(it, ast.Call) and isinstance(it.func, ast.Name) and it.func.id == "enumerate" and len(it.args) == 1 and not it.keywords \
+                and isinstance(node.target, ast.Tuple) and len(node.target.elts) == 2 and isinstance(node.target.elts[0], ast.Name):
+            idx = node.target.elts[0].id
+            if any(isinstance(n, ast.Name) and n.id == idx and isinstance(n.ctx, (ast.Store, ast.Del)) for st in body for n in ast.walk(st)):
+                return node
+            length_of = it.args[0]
+        else:
+            self.k += 1
+            idx = f"_ci{self.k}"
+            new.target = ast.Tuple(elts=[ast.Name(id=idx, ctx=ast.Store()), node.target], ctx=ast.Store())
+            new.iter = ast.Call(func=ast.Name(id="enumerate", ctx=ast.Load()), args=[it], keywords=[])
+            length_of = it
+        off: ast.AST = ast.Name(id=idx, ctx=ast.Load())
+        if abs(step) != 1:
+            off = ast.BinOp(left=ast.Constant(value=abs(step)), op=ast.Mult(), right=off)
+        closed = ast.BinOp(left=ast.Name(id=c, ctx=ast.Load()), op=ast.Add() if step > 0 else ast.Sub(), right=off)
+
+        class R(ast.NodeTransformer):
+            def visit_Name(self, n: ast.Name):
+                if n.id == c and isinstance(n.ctx, ast.Load):
+                    return ast.copy_location(copy.deepcopy(closed), n)
+                return n
+        new.body = [R().visit(copy.deepcopy(st)) for st in body] or [ast.copy_location(ast.Pass(), node)]
+        out: list = [ast.copy_location(new, node)]
+        if read_later or in_outer_loop:
+            chain2 = length_of
+            while isinstance(chain2, ast.Attribute):
+                chain2 = chain2.value
+            if not isinstance(chain2, ast.Name):
+                return node
+            total: ast.AST = ast.Call(func=ast.Name(id="len", ctx=ast.Load()), args=[copy.deepcopy(length_of)], keywords=[])
+            if abs(step) != 1:
+                total = ast.BinOp(left=ast.Constant(value=abs(step)), op=ast.Mult(), right=total)
+            out.append(ast.copy_location(ast.AugAssign(target=ast.Name(id=c, ctx=ast.Store()), op=ast.Add() if step > 0 else ast.Sub(), value=total), node))
+        for x in out:
+            ast.fix_missing_locations(x)
+        return out
+
+
 def normalise_loops(fn: ast.FunctionDef) -> ast.FunctionDef:
     fn = _inline_iterables(fn)
     fn = _ZipCount().visit(copy.deepcopy(fn))
+    ast.fix_missing_locations(fn)
+    fn = _CounterLoops(fn).visit(fn)
     ast.fix_missing_locations(fn)
     new = copy.copy(fn)
     new.body = list(_IndexToEnumerate(_IndexToEnumerate.sized_locals(fn)).visit(ast.Module(body=copy.deepcopy(list(fn.body)), type_ignores=[])).body)
